@@ -61,3 +61,53 @@ Print Assumptions C09_cover.
 Print Assumptions C09_generator_refines_spec.
 Print Assumptions C09_ginvb_sound.
 Print Assumptions C09_dabs_sound.
+
+From AT Require Import PolyGenUpd.
+
+(* the generator on a tree the caller rewrites between two next() calls (PolyhedraGen does not borrow the tree;
+   AffTree::remove_axes, infeasible_elimination).  Pwl/PolyGenUpd.v: scripts Next | Skip | Update i p (update_node),
+   the arena is threaded through the script, the same coded machine pgen_next / pgen_skip runs on the current arena.
+   Without updates this is the static machine, so C09_generator_refines_spec carries over *)
+Theorem C09_generator_static_instance : forall script a s,
+  pgen_run_upd a s (map ucmd_of script) = pgen_run a s script.
+Proof. exact pgen_run_upd_static. Qed.
+(* after any script prefix (updates included) that leaves the arena a and the generator state s behind, the item
+   reported by the following Next carries the kept prefix of the path rows followed by the edge rows of the predicate
+   stored at its parent IN a (the arena at the moment of the report), under its label there *)
+Theorem C09_generator_reads_current_parent : forall a0 s0 pre a s o,
+  ucfg a0 s0 pre = Some (a, s) ->
+  pgen_run_upd a0 s0 (pre ++ [UNext]) = pgen_run_upd a0 s0 pre ++ [OItem o] ->
+  exists c, aget a (o_index o) = Some c /\
+    match c_parent c with
+    | None => o_rows o = firstn (kept s (o_depth o)) (pg_preds s)
+    | Some pi => exists pc l r, aget a pi = Some pc /\ find_label (c_children pc) (o_index o) = Some l /\
+                   edge_rows (ac_aff (c_val pc)) l = Some r /\
+                   o_rows o = firstn (kept s (o_depth o)) (pg_preds s) ++ r
+    end.
+Proof. exact pgen_run_upd_reads_current_parent. Qed.
+(* in particular: update_node(parent, p) right before the child is reported -> the child's last block are rows of p *)
+Theorem C09_generator_after_update : forall a0 s0 pre a s pi p o c,
+  ucfg a0 s0 pre = Some (a, s) ->
+  pgen_run_upd a0 s0 (pre ++ [UUpdate pi p; UNext]) = pgen_run_upd a0 s0 pre ++ [OItem o] ->
+  aget a (o_index o) = Some c -> c_parent c = Some pi ->
+  exists pc l r, aget a pi = Some pc /\ find_label (c_children pc) (o_index o) = Some l /\
+    edge_rows p l = Some r /\ o_rows o = firstn (kept s (o_depth o)) (pg_preds s) ++ r.
+Proof. exact pgen_run_upd_after_update. Qed.
+(* one decision over two leaves: rewriting the root after its report changes the rows reported for the children *)
+Example C09_generator_update_nonvacuous :
+  map (fun o => rows_eqb (out_rows o) [([- (1)], - 0)]) (pgen_run_upd pgu_arena (pgen_new 0) [UNext; UNext; UNext])
+    = [false; true; false] /\
+  map (fun o => rows_eqb (out_rows o) [([- (1 + 1)], - (1))])
+      (pgen_run_upd pgu_arena (pgen_new 0) [UNext; UUpdate 0 pgu_q; UNext; UNext]) = [false; true; false] /\
+  map (fun o => rows_eqb (out_rows o) [([1 + 1], 1)])
+      (pgen_run_upd pgu_arena (pgen_new 0) [UNext; UUpdate 0 pgu_q; UNext; UNext]) = [false; false; true] /\
+  map (fun o => rows_eqb (out_rows o) [([- (1)], - 0)])
+      (pgen_run_upd pgu_arena (pgen_new 0) [UNext; UNext; UUpdate 0 pgu_q; UNext]) = [false; true; false] /\
+  map (fun o => rows_eqb (out_rows o) [([1 + 1], 1)])
+      (pgen_run_upd pgu_arena (pgen_new 0) [UNext; UNext; UUpdate 0 pgu_q; UNext]) = [false; false; true].
+Proof. exact pgen_run_upd_example. Qed.
+
+Print Assumptions C09_generator_static_instance.
+Print Assumptions C09_generator_reads_current_parent.
+Print Assumptions C09_generator_after_update.
+Print Assumptions C09_generator_update_nonvacuous.
